@@ -182,6 +182,16 @@ func relName(fn *ssa.Function) string {
 }
 
 func (e *Engine) contractOf(fn *ssa.Function) *Contract {
+	if strings.HasPrefix(fn.Synthetic, "bound method wrapper") {
+		// key: the method's key + "$bound", in the method's package; the receiver is the
+		// free variable `recv`
+		if m, ok := fn.Object().(*types.Func); ok && m.Pkg() != nil {
+			if mf := e.prog.FuncValue(m); mf != nil {
+				return e.lib.Contracts[m.Pkg().Path()+"::"+relName(mf)+"$bound"]
+			}
+		}
+		return nil
+	}
 	p := fn
 	for p.Pkg == nil && p.Parent() != nil {
 		p = p.Parent()
